@@ -884,8 +884,12 @@ class TemplateModel(object):
         assert template.ndim == 2
         channel_ids_, amplitude, best_channel = self._find_best_channels(
             template, amplitude_threshold=amplitude_threshold)
-        channel_ids = channel_ids if channel_ids is not None else channel_ids_
-        template = template[:, channel_ids]
+        template = template[:, channel_ids if channel_ids is not None else channel_ids_]
+        if channel_ids is not None:
+            # Amplitudes of the requested channels.
+            amplitude = template.max(axis=0) - template.min(axis=0)
+        else:
+            channel_ids = channel_ids_
         assert template.ndim == 2
         assert template.shape[1] == channel_ids.shape[0]
         return Bunch(
